@@ -198,9 +198,10 @@ SETTERS = ("RtpTransceiver::set_mid", "RtpTransceiver::update_payload_map", "Rtp
 # Error returns that propagate a *transport start-up failure* (socket/ICE/RTP transport set-up). They need an
 # environmental fault to manifest, which is outside C09's quantifier (call sequences x descriptions); no description
 # could provoke them in this sandbox. They are excluded from R09.2 one named callee at a time, and listed in the evidence.
+# (configure_rtp_media_transports_from_remote used to be listed here; a CONFIGURATION - an RTP port range without a usable
+# even port - makes it fail deterministically, so it is decided now: known finding, see KNOWN_FINDINGS.txt.)
 TRANSPORT_FAILURES = {
     "start_direct": "IceTransport::start_direct fails only on gathering/socket errors or a 2 s candidate timeout",
-    "configure_rtp_media_transports_from_remote": "fails only when a direct RTP media transport cannot be started (socket/ICE error)",
 }
 
 
